@@ -162,7 +162,12 @@ def expectCore (op : String) (mode : Mode) (args : List Val) (tinyAfter : Bool :
         | _ => false)
   | "roundtrip_display", [.d x] => exactly [.s (format true (decode x)), .d (reparse x)] 0
   | "roundtrip_lowerexp", [.d x] => exactly [.s (format false (decode x)), .d (reparse x)] 0
-  | "roundtrip_serde", [.d x] => exactly [.s ([34] ++ format true (decode x) ++ [34]), .d (reparse x)] 0
+  | "roundtrip_serde", [.d x] =>
+    -- the property fixes what comes back, not the JSON text: any string representation that round-trips is fine
+    .pred "deserialising the serialised value returns it (NaN: sign and signalling-ness)"
+      (fun r => match r with
+        | [.s _, .d y] => y == reparse x
+        | _ => false) 0
   -- C03 comparisons
   | "eq", [.d x, .d y] => boolE (eqGlue (decode x) (decode y))
   | "ne", [.d x, .d y] => boolE (!eqGlue (decode x) (decode y))
@@ -405,7 +410,9 @@ where
   fromStrE (t : Bytes) : Expect :=
     match parseE .rne t with
     | .oneOf alts raised =>
-      if raised = 0 || raised = fInexact then .oneOf alts 0 else exactly [.err raised] 0
+      if raised = 0 || raised = fInexact then .oneOf alts 0
+      else .pred "Err (a flag other than inexact was raised); the payload of the error is not prescribed"
+        (fun r => match r with | [.err _] => true | _ => false) 0
     | .pred d p _ => .pred d p 0
     | e => e
 
